@@ -96,6 +96,65 @@ def unknown_atoms(t, allowed):
 # ============================================================================================
 #  R-C07-1  refinement error polynomial
 # ============================================================================================
+def log2_floor(q):
+    """floor(log2(q)) for a positive rational"""
+    q = sp.Rational(q)
+    e = int(q.p).bit_length() - int(q.q).bit_length()
+    while sp.Rational(2) ** e > q:
+        e -= 1
+    while sp.Rational(2) ** (e + 1) <= q:
+        e += 1
+    return e
+
+
+def magnitudes(s, kind, bits):
+    """Range of every intermediate result of a rounded operation over the stated input range 2^-126 <= |x| < 2^126, with the
+    hardware estimates read as exact (rcp_ss(a) ~ 1/a, rsqrt_ss(a) ~ 1/sqrt(a)): each intermediate is c * x^p.
+    -> (problems [(term, p, lo_exp, hi_exp)], {rounding symbol name: extra binades of denormal loss (1..2)}, table)"""
+    x = sym('x')
+    R = 126 if kind == 'rcp' else 63
+    X = sp.Symbol('mag_x', positive=True)
+    emin, emax = (-126, 128) if bits == 32 else (-1022, 1024)
+    probs, loose, table = [], {}, []
+    for P in s.paths:
+        for dname, t in P.fpvals:
+            t0 = t.xreplace({d: 0 for d in t.free_symbols if d.name.startswith('_d')})
+            t0 = t0.xreplace({x: X ** 2 if kind == 'rsqrt' else X})
+            t0 = t0.replace(lambda z: I.is_app(z, 'rcp_ss') or I.is_app(z, 'rsqrt_ss'),
+                            lambda z: 1 / z.args[0] if z.func.__name__ == 'rcp_ss' else 1 / sp.sqrt(z.args[0]))
+            if t0.has(I.Sel) or unknown_atoms(t0, ()) or (t0.free_symbols - {X}):
+                continue
+            t0 = sp.cancel(sp.together(t0))
+            if t0 == 0:
+                continue
+            nn, dd = sp.fraction(t0)
+            try:
+                Pn, Pd = sp.Poly(nn, X), sp.Poly(dd, X)
+            except sp.PolynomialError:
+                continue
+            if len(Pd.terms()) != 1:
+                continue
+            (dm,), dc = Pd.terms()[0]
+            terms = [(m[0] - dm, sp.Rational(c) / sp.Rational(dc)) for m, c in Pn.terms() if c.is_Rational]
+            if len(terms) != len(Pn.terms()) or not terms:
+                continue
+            hi = sum(abs(c) * sp.Rational(2) ** (R * abs(k)) for k, c in terms)
+            hie = log2_floor(hi)
+            p = sp.Rational(terms[0][0], 2 if kind == 'rsqrt' else 1)
+            if len(terms) == 1:
+                lo = abs(terms[0][1]) * sp.Rational(2) ** (-R * abs(terms[0][0]))
+                loe = log2_floor(lo)
+            else:
+                loe = None
+            table.append((p if len(terms) == 1 else None, loe, hie))
+            bad = hie >= emax or (loe is not None and loe < emin - 2)
+            if bad:
+                probs.append((t, p if len(terms) == 1 else None, loe, hie))
+            elif loe is not None and loe < emin and dname:
+                loose[dname] = max(loose.get(dname, 0), emin - loe)
+    return probs, loose, table
+
+
 def check_refinement(ctx, U):
     R = 'R-C07-1'
     n = 0
@@ -117,6 +176,17 @@ def check_refinement(ctx, U):
         worst = sp.Integer(0)
         shown = None
         bad = False
+        # every intermediate must stay inside the floating-point range over the stated input range, otherwise the
+        # relative rounding model (and the algebra below) does not describe the computation
+        mprobs, loose, mtable = magnitudes(s, kind, bits)
+        if mprobs:
+            t, p, loe, hie = mprobs[0]
+            ctx.violation(R, inst, 'intermediate result `%s` grows like x^%s: over 2^-126 <= |x| < 2^126 it ranges over [2^%s, 2^%s] and '
+                          'leaves the %s range (overflow to infinity / flush into denormals), so the result is not within 2^-20 of the '
+                          'exact value near the ends of the range although the expression is algebraically right'
+                          % (t, p, loe, hie, 'float' if bits == 32 else 'double'), RKMATH, key=key + 'intermediate-range',
+                          path=['result: %s' % s.value('ret')] + ['intermediate ~ x^%s in [2^%s, 2^%s]' % m for m in mtable])
+            continue
         for g, t in cs:
             X = x
             if kind == 'rsqrt':
@@ -147,7 +217,7 @@ def check_refinement(ctx, U):
             bounds = {e: E_EST for e in est.values()}
             for z in small:
                 if z.name.startswith('_d'):
-                    bounds[z] = u
+                    bounds[z] = u * 2 ** loose.get(z.name, 0)
             try:
                 b = I.error_bound(err, bounds)
             except Undecided as e:
@@ -164,8 +234,9 @@ def check_refinement(ctx, U):
             if b >= worst:
                 worst, shown = b, ideal
         if not bad:
-            ctx.ok(R, inst, 'relative error %s + rounding of %d operation(s); interval bound %.3g * 2^-20'
-                   % (shown, s.nround, float(worst * 2 ** 20)), RKMATH)
+            ctx.ok(R, inst, 'relative error %s + rounding of %d operation(s); interval bound %.3g * 2^-20; intermediates ~ x^p, p in {%s}, '
+                   'all inside the normal range (%d within 2 binades below it)'
+                   % (shown, s.nround, float(worst * 2 ** 20), ', '.join(sorted({str(m[0]) for m in mtable})), len(loose)), RKMATH)
     return n
 
 
@@ -322,20 +393,35 @@ def check_definitions(ctx, U):
             continue
         n += 1
         try:
-            t = s.value('ret')
+            cs = guarded(s)
         except Undecided as e:
             ctx.undecided(R, inst, str(e), RKMATH)
             continue
         q = I.atom(div, a, b)
         accepted = [I.atom(div, a + b - 1, b), q + I.mk_sel(I.ilit('ne', a - b * q, 0), sp.Integer(1), sp.Integer(0))]
-        if any(I.equal_guarded([((), t)], [((), e)])[0] for e in accepted):
-            ctx.ok(R, inst, 'ceil-div form %s' % t, RKMATH)
-        elif I.is_app(t, div) and len(t.args) == 2 and not unknown_atoms(t.args[0], ()) and not unknown_atoms(t.args[1], ()):
-            ctx.violation(R, inst, 'computes %s; the least q with q*b >= a is (a + b - 1) / b' % t, RKMATH, key=key + 'form')
-        elif I.equal(t, q) or I.equal(t, q + 1):
-            ctx.violation(R, inst, 'computes %s, which is not the ceiling of a/b for all a' % t, RKMATH, key=key + 'form')
-        else:
-            ctx.undecided(R, inst, 'form %s is neither a recognised ceil-div nor a recognised wrong one' % t, RKMATH)
+        pred_form = I.atom(div, a - 1, b) + 1        # right for a >= 1 only
+        probs, und = [], []
+        forms = set()
+        for g, v in cs:
+            g = list(g)
+            if any(I.equal_guarded([(tuple(g), v)], [((), e)])[0] for e in accepted):
+                forms.add('(a + b - 1) / b')
+            elif I.equal(v, pred_form):
+                forms.add('(a - 1) / b + 1 for a != 0')
+                if I.consistent(g + [I.ilit('eq', a, 0)]):
+                    probs.append(('zero', 'computes (a - 1) / b + 1 also for a == 0, where it yields %s instead of 0 '
+                                  '(the least q with q*b >= 0)' % ('(-1)/b + 1 = 1' if div[0] == 's' else 'T_MAX / b + 1')))
+            elif v == 0:
+                forms.add('0 for a == 0')
+                if I.consistent(g + [I.ilit('slt', 0, a)]) and I.consistent(g + [I.ilit('ne', a, 0)]):
+                    probs.append(('zero', 'case `%s` returns 0 although a may be positive' % show_guard(g)))
+            elif I.is_app(v, div) and len(v.args) == 2 and not unknown_atoms(v.args[0], ()) and not unknown_atoms(v.args[1], ()):
+                probs.append(('form', 'computes %s; the least q with q*b >= a is (a + b - 1) / b' % v))
+            elif I.equal(v, q) or I.equal(v, q + 1):
+                probs.append(('form', 'computes %s, which is not the ceiling of a/b for all a' % v))
+            else:
+                und.append('form %s is neither a recognised ceil-div nor a recognised wrong one' % v)
+        report(ctx, R, inst, RKMATH, key, probs, und, 'ceil-div form: %s' % '; '.join(sorted(forms)))
     # ---- sign
     inst = 'sign(float) [%s]' % U.cfg
     s = U.summary(R, inst, 'K_sign', RKMATH)
